@@ -1321,6 +1321,8 @@ def value_matches(real, mv, cx, float_leak, fracunits=False):
         return None if cx.exact or cx.mode == "decimal" else "underflow"     # inf * 0 inside a factor
     if cx.exact:
         if isinstance(real, float) or type(real).__name__.startswith("float"):
+            if fracunits:
+                return "leak"
             if not float_leak:
                 return "eq" if (math.isfinite(real) and F(real) == mv.v) else None
             if not math.isfinite(real):
@@ -1332,8 +1334,8 @@ def value_matches(real, mv, cx, float_leak, fracunits=False):
         if fracunits:
             # auto_reduce_dimensions produced units with fractional exponents (foot * barn ->
             # barn**(3/2)); the factor contains an irrational root computed in floating point
-            d = abs(F(real) - mv.v)
-            return "leak" if d <= F(1, 10 ** 12) * max(abs(mv.v), F(1, 10 ** 30)) else None
+            # (and (6.4e-14) ** (145/6) is subnormal: no bound on the error can be stated)
+            return "leak"
         return None
     try:
         rf = _as_fraction(real)
@@ -1369,7 +1371,16 @@ class Decider:
         rec, cx = self.rec, self.cx
         nel = self.g.nelem
         full = self.g.full if self.g.full is not None else ()
+        ftaint = [False] * len(nodes)
         for n in nodes:
+            nmn = norms[n.id]
+            own = nmn[0] == "ok" and len(nmn) > 4 and nmn[4]
+            if nmn[0] == "tuple":
+                own = any(x[0] == "ok" and len(x) > 4 and x[4] for x in nmn[1:])
+            # units with fractional exponents (auto_reduce_dimensions: foot * barn -> barn**1.5) put an
+            # irrational factor, computed in floating point, into this result and everything above it
+            ftaint[n.id] = bool(own or any(ftaint[c.id] for c in n.kids))
+            tree["frac_taint"] = ftaint[n.id]
             kid_status = [status[c.id] for c in n.kids]
             if "bad" in kid_status:
                 status[n.id] = "bad"
@@ -1449,7 +1460,9 @@ class Decider:
                 rec.count("error_expected_and_raised")
             return None
         if nm[0] == "err":
-            if nm[1] == "Overflow" and not cx.exact:
+            if nm[1] == "Overflow":
+                # OverflowError only comes from Python's float conversion of a huge number
+                # (Fraction + nan, Fraction ** (1/3) after auto_reduce): a limit of floats
                 return ("skip", "overflow")
             return ("unexpected-error", {"got": nm[1], "message": nm[2]})
         if nm[0] == "normfail":
@@ -1492,6 +1505,7 @@ class Decider:
         if nm[0] != "ok":
             return ("result-kind", {"got": nm[0]})
         _, mag, dims, bare, fracunits = nm
+        fracunits = fracunits or tree.get("frac_taint", False)
         mv0 = mvs[0]
         if dims != mv0.dims:
             if not cx.exact and all(abs(dims.get(k2, 0) - mv0.dims.get(k2, 0)) < F(1, 10 ** 9)
@@ -1645,7 +1659,8 @@ class Decider:
                 "tree": render(nodes[-1], k, formed, self.cx)[:900],
                 "assignment": k, "formed_run": bool(formed),
                 "detail": detail, "real": _short(nm), "model": _short_model(mo[0]),
-                "registry": dict(self.r.fields)}
+                "registry": dict(self.r.fields),
+                **({"definitions": self.r.spec["definitions"]} if self.r.spec.get("definitions") else {})}
 
 
 def _short(nm):
@@ -1983,6 +1998,30 @@ def edge_trees(g, rng):
                     yield Node("bin", "**", [base, e], form=form)
 
 
+def chain_positive(m, c, _seen=None):
+    """True when no unit in the definition chain of `c` has a negative scale (a negative scale under
+    a fractional exponent - auto_reduce_dimensions - is a complex number)."""
+    _seen = _seen if _seen is not None else {}
+    if c in _seen:
+        return _seen[c]
+    _seen[c] = True
+    u = m.units[c]
+    good = True
+    if not u["is_base"]:
+        try:
+            if u["scale"].v <= 0:
+                good = False
+            else:
+                for r in u["ref"]:
+                    if not chain_positive(m, m.resolve(r)[1], _seen):
+                        good = False
+                        break
+        except Exception:  # noqa: BLE001
+            good = False
+    _seen[c] = good
+    return good
+
+
 def run_shard(spec, rec):
     from harness import pintload, refmodel as R, gen, monitors
     import pint
@@ -1990,6 +2029,8 @@ def run_shard(spec, rec):
     if not monitors.install_container_invariants():
         rec.inconc("icontract not importable")
         return
+    import sys
+    sys.set_int_max_str_digits(1000000)     # operand fingerprints repr() Fractions of generated registries
     rng = random.Random(spec["seed"])
     cx = Cx(spec["mode"])
     lines = install_line_observer(pint)
@@ -2047,8 +2088,9 @@ def run_shard(spec, rec):
                 rec.count("generated_registry_refused")
                 continue
             m = R.read_text(txt)
-            names = [c for c in gdef.mult_units() if gdef.units[c]["factor"] > 0]
-            one_registry(ureg, m, names, spec["trees"], f"generated{i}", spec=dict(spec, auto_reduce=bool(i % 2)))
+            names = [c for c in gdef.mult_units() if gdef.units[c]["factor"] > 0 and chain_positive(m, c)]
+            one_registry(ureg, m, names, spec["trees"], f"generated{i}",
+                         spec=dict(spec, auto_reduce=bool(i % 2), definitions=txt))
             rec.count("generated_registries")
             if i == 0:
                 rec.sample({"generated_file": txt[:400]})
@@ -2056,7 +2098,8 @@ def run_shard(spec, rec):
         m = R.default_model(pintload.REPO)
         ureg = pintload.registry(**kw)
         exact_only = cx.mode in ("fraction", "decimal")
-        names = [c for c in gen.canonical_units(m, exact_only=exact_only) if m.root(c)[0].f() > 0]
+        names = [c for c in gen.canonical_units(m, exact_only=exact_only)
+                 if m.root(c)[0].f() > 0 and chain_positive(m, c)]
         one_registry(ureg, m, names, spec["trees"], spec["name"])
 
     if lines is not None:
